@@ -1,6 +1,7 @@
 package xmlenc
 
 import (
+	"crypto"
 	"crypto/sha1" //nolint:gosec // required for protocol support
 	"crypto/sha256"
 	"crypto/sha512"
@@ -11,8 +12,9 @@ import (
 )
 
 type digestMethod struct {
-	algorithm string
-	hash      func() hash.Hash
+	algorithm  string
+	hash       func() hash.Hash
+	cryptoHash crypto.Hash
 }
 
 func (dm digestMethod) Algorithm() string {
@@ -23,29 +25,38 @@ func (dm digestMethod) Hash() hash.Hash {
 	return dm.hash()
 }
 
+// CryptoHash returns the identifier of the hash function in package crypto.
+func (dm digestMethod) CryptoHash() crypto.Hash {
+	return dm.cryptoHash
+}
+
 var (
 	// SHA1 implements the SHA-1 digest method (which is considered insecure)
 	SHA1 = digestMethod{
-		algorithm: "http://www.w3.org/2000/09/xmldsig#sha1",
-		hash:      sha1.New,
+		algorithm:  "http://www.w3.org/2000/09/xmldsig#sha1",
+		hash:       sha1.New,
+		cryptoHash: crypto.SHA1,
 	}
 
 	// SHA256 implements the SHA-256 digest method
 	SHA256 = digestMethod{
-		algorithm: "http://www.w3.org/2000/09/xmldsig#sha256",
-		hash:      sha256.New,
+		algorithm:  "http://www.w3.org/2000/09/xmldsig#sha256",
+		hash:       sha256.New,
+		cryptoHash: crypto.SHA256,
 	}
 
 	// SHA512 implements the SHA-512 digest method
 	SHA512 = digestMethod{
-		algorithm: "http://www.w3.org/2000/09/xmldsig#sha512",
-		hash:      sha512.New,
+		algorithm:  "http://www.w3.org/2000/09/xmldsig#sha512",
+		hash:       sha512.New,
+		cryptoHash: crypto.SHA512,
 	}
 
 	// RIPEMD160 implements the RIPEMD160 digest method
 	RIPEMD160 = digestMethod{
-		algorithm: "http://www.w3.org/2000/09/xmldsig#ripemd160",
-		hash:      ripemd160.New,
+		algorithm:  "http://www.w3.org/2000/09/xmldsig#ripemd160",
+		hash:       ripemd160.New,
+		cryptoHash: crypto.RIPEMD160,
 	}
 )
 
